@@ -193,3 +193,12 @@ Fixpoint plocate_from (n : nat) (t : ptable) (i key : Z) : option (Z * Z) :=
     else if (3 <? c) && (pky b 3 =? key) then Some (i, 3)
     else plocate_from m t (i + 1) key
   end.
+
+Fixpoint pgrow_chain (H mm : Z) (hash : Z -> Z) (t : ptable) (L : Z) (Ls : list Z) : outcome (ptable * Z) :=
+  match Ls with
+  | [] => Ok (t, L)
+  | newL :: r => match pmigrate H mm hash t L newL with
+                 | Ok (_, tnew, _) => pgrow_chain H mm hash tnew newL r
+                 | Stuck => Stuck | Fuel => Fuel | Exn => Exn
+                 end
+  end.
